@@ -7,14 +7,19 @@ Result / CompileError(line) / FoldError(line) / Skipped and the report each admi
 
 1. TLC model-checks Outcome.tla: every behaviour the machine allows satisfies C15 as stated
    (not compilable => exactly one python-compiler-error at CPython's line; compilable => a result;
-   every reported line inside the file; nothing escapes), and exports the mutation plan
-   (Mutate(kind, slot) sequences) the driver applies to real token lists.
+   every reported line inside the file; nothing escapes), in two runs: inputs x mutation plans x
+   main pipeline (exports the Mutate(kind, slot) sequences the driver applies to real token
+   lists), and inputs x pipeline with sub-runs (the Compile -> Blocks -> Run sub-machine of
+   annotation / type-comment evaluation, nested up to depth 2).
 2. Exploration (code -> spec): pytype's top-level entry io.check_or_generate_pyi runs on a virtual
    file for hand-written and generated programs (all constructs), spec-chosen token mutations of
-   them, the programs embedded in pytype/tests and small CPython standard-library files; harness
-   wrappers emit one event per stage; CPython's compile() is the oracle for compilability and the
-   blamed line.  TLC (TraceC15.tla) accepts or rejects each recorded run with Outcome!Verdict.
+   them, edge texts, the minimal inputs of earlier findings (FOUND), the programs embedded in
+   pytype/tests and small CPython standard-library files; harness wrappers emit one event per
+   stage (sub-runs included); CPython's compile() is the oracle for compilability and the blamed
+   line.  TLC (TraceC15.tla) accepts or rejects each recorded run with Outcome!Verdict.
    Worker processes are killed at a per-item time cap; such an item is 'not explored'.
+   A rejected run whose exception escaped gets the key C15:escaped:<type>@<file>:<function>
+   (innermost pytype frame); harness/c15_min.py reduces its input (ddmin, same type, same site).
 """
 import argparse
 import hashlib
@@ -176,14 +181,24 @@ def build_inputs(run, thorough, plans):
     plan = plans[k % len(plans)]
     out = src
     for kind, slot in plan:
-      nt = max(1, len(progs_d.tokens(out)))
-      pos = (slot * nt) // SLOTS + rng.randrange(max(1, nt // SLOTS))
-      out = progs_d.mutate(out, kind, pos, rng)
+      try:
+        nt = max(1, len(progs_d.tokens(out)))
+        pos = (slot * nt) // SLOTS + rng.randrange(max(1, nt // SLOTS))
+        out = progs_d.mutate(out, kind, pos, rng)
+      except SystemError:
+        # CPython 3.12.1's tokenize raises SystemError on a text that already holds a NUL byte
+        # (inserted by the previous mutation of the plan): keep that text as it is
+        break
     if out != src:
       add("mut%05d" % k, out, None, "mutant")
   # texts CPython rejects in ways a token mutation rarely produces
   for k, s in enumerate(EDGE):
     add("edge%02d" % k, s, "infer", "edge")
+  # minimal inputs of the findings of earlier runs (harness/c15_min.py), in both modes: a finding
+  # stays exercised whatever the seed, and a fix is confirmed by the same check
+  for k, s in enumerate(FOUND):
+    add("found%02d:infer" % k, s, "infer", "found")
+    add("found%02d:check" % k, s, "check", "found")
   ups = progs_d.upstream_snippets(boot.REPO)
   if not thorough:
     ups = rng.sample(ups, 160)
@@ -213,6 +228,83 @@ EDGE = [
     "class A(A): pass\n", "def f(*, **k): pass\n", "lambda: (yield)\n", "x = 0777\n", "\\\n", "x = 1 if else 2\n",
     "try:\n  pass\nexcept* E:\n  return\n", "async def f():\n  [x async for x in y]\n  await = 1\n", "\ufeffx = 1\n", "x = '\\N{foo}'\n",
     "def f():\n" + "  if x:\n" * 30 + "  " * 31 + "pass\n", "\tx = 1\n", "x = 1\r\ny = (\r\n", "@\ndef f(): pass\n",
+]
+
+
+def _case(events, compiles=True, cline=0, nlines=3, skip=False, mode="infer", crashed=False, errs=()):
+  return {"nlines": nlines, "compiles": compiles, "cline": cline, "skip": skip, "mode": mode,
+          "events": [list(e) for e in events], "crashed": crashed, "errs": [list(e) for e in errs]}
+
+
+_MAIN = [("Read", "ok"), ("Directors", "ok"), ("Compile", "ok"), ("Blocks", "ok"), ("Fold", "ok")]
+_TAIL = [("Analyze", "ok"), ("ComputeTypes", "ok"), ("Optimize", "ok"), ("Print", "ok")]
+_SUB = [("Compile", "ok"), ("Blocks", "ok"), ("Run", "ok")]
+# synthetic runs with the verdict the spec must give (binding self-test of Outcome!Verdict):
+# accepted shapes of sub-runs and rejected malformed ones
+SPEC_CASES = [
+    (_case(_MAIN + [("Run", "ok")] + _TAIL), []),
+    (_case(_MAIN + [("Run", "ok")] + _SUB + _TAIL), []),                               # late annotation
+    (_case(_MAIN + _SUB + _SUB + [("Run", "ok")] + _SUB + _TAIL), []),                  # inside Run, before/inside Analyze
+    (_case(_MAIN + [("Compile", "ok"), ("Blocks", "ok")] + _SUB + [("Run", "ok"), ("Run", "ok")] + _TAIL), []),  # nested
+    (_case(_MAIN + [("Compile", "CompileError"), ("Run", "ok")] + _TAIL), []),           # bad annotation text, caught
+    (_case(_MAIN + [("Run", "ok"), ("Compile", "ok"), ("Blocks", "ok")] + _TAIL), ["stage-order"]),   # sub-run never ran
+    (_case(_MAIN + [("Run", "ok"), ("Compile", "ok"), ("Run", "ok")] + _TAIL), ["stage-order"]),      # Blocks skipped
+    (_case(_MAIN + [("Run", "ok"), ("Blocks", "ok")] + _TAIL), ["stage-order"]),                        # Blocks without Compile
+    (_case(_MAIN + [("Run", "ok"), ("Analyze", "ok")] + _SUB + _TAIL[1:]), ["stage-order"]),            # sub-run after Analyze
+    (_case(_MAIN[:3] + _SUB + _MAIN[3:] + [("Run", "ok")] + _TAIL), ["stage-order"]),                   # sub-run before Fold
+    (_case(_MAIN + [("Run", "ok")] + _TAIL[:2]), ["stage-order", "compilable-not-analysed"]),           # stops early
+    (_case(_MAIN + [("Run", "ok"), ("Compile", "SyntaxError")] + _TAIL), ["stage-order"]),              # not what eval_expr catches
+    (_case(_MAIN + [("Compile", "ok"), ("Blocks", "ok"), ("Run", "KeyError"), ("Run", "KeyError")], crashed=True), ["escaped"]),
+    (_case(_MAIN + [("Run", "ok")] + _TAIL, errs=[("name-error", 0)]), ["line-outside-file"]),
+    (_case(_MAIN + [("Run", "ok")] + _TAIL, errs=[("name-error", 4)]), ["line-outside-file"]),
+    (_case(_MAIN + [("Run", "ok")] + _TAIL, errs=[("python-compiler-error", 1)]), ["compiler-error-on-compilable"]),
+    (_case([("Read", "ok"), ("Directors", "SyntaxError")], compiles=False, cline=2, errs=[("python-compiler-error", 2)]), []),
+    (_case([("Read", "ok"), ("Directors", "SyntaxError")], compiles=False, cline=2, errs=[("python-compiler-error", 1)]), ["blamed-line"]),
+    (_case([("Read", "ok"), ("Directors", "SyntaxError")], compiles=True), ["stage-order"]),
+    (_case(_MAIN + [("Run", "ok")] + _TAIL, compiles=False, cline=1), ["stage-order"]),
+    (_case(_MAIN[:4] + [("Fold", "ConstantError")], errs=[("python-compiler-error", 1)]), []),
+]
+
+
+def spec_selftest():
+  nv, bad, res = tlc.validate_cases("TraceC15", [c for c, _ in SPEC_CASES], cfg=TRACE_CFG, timeout=600, heap="2g")
+  common.require(bad is None and not res.violated, "TraceC15 stopped on the self-test cases:\n" + res.out[-2000:])
+  got = {c["i"]: sorted(c["fails"]) for c in tlc.parse_cases(res.out, "BAD")}
+  for k, (_, want) in enumerate(SPEC_CASES, 1):
+    common.require(got.get(k, []) == sorted(want),
+                   "Outcome!Verdict self-test case %d: expected %s, TLC says %s" % (k, want, got.get(k, [])))
+  return len(SPEC_CASES)
+
+
+FOUND = [
+    "x = {[1]: 2}\n", "x = {1: 2, **{3: 4}, {5}: 6}\n",
+    'import enum\nenum.Enum(1, "A")\n', 'import enum\nenum.Enum("X", 5)\n', 'import enum\nenum.Enum("X", [1, 2])\n',
+    'import enum\nenum.Enum("X", [(1, 2)])\n', 'import enum\nenum.Enum("X", [("a", 2, 3)])\n',
+    'import enum\nenum.Enum("X", ["a", 1])\n', 'import enum\nenum.Enum("X", [("a", 1), "b"])\n',
+    'import enum\nX = enum.Enum("X", [("a", 1), ("b", 2)])\nY = enum.Enum("Y", "a b")\nZ = enum.Enum("Z", ["a", "b"])\nprint(X.a, Y.b, Z.a.value)\n',
+    "class C:\n  type L[T] = list[T]\n", "class C:\n  T = 1\n  type L[T] = list[T]\n  type M = T\n",
+    "def f[T](x=1): pass\n", "def f[T](*, x=1) -> T: pass\n", "def g[T](a: T, b: int = 3, *, c='') -> T: return a\n",
+    "def f(): pass\nif __random__:\n  f = classmethod(f)\n",
+    "def f(): pass\ntry:\n  import foo\nexcept ImportError:\n  f = staticmethod(f)\n",
+    'from typing import LiteralString\nx = ""\n', 'from typing import *\nx = ""\n', 'from typing_extensions import Text\nx = ""\n',
+    'y = ""\ndef f():\n  match y:\n    case str():\n      pass\n', 'y = ""\nclass C:\n  match y:\n    case str():\n      pass\n',
+    "f'{r:{d=}'\n", "x = 1\nf'{r:{d=}'\n",
+    "def g():\n  class C:\n    for a in zip(xs): ()\n    def __init__(): super\n  yield (xs := ())\n",
+    "class A:\n  class B[T]:\n    def __init__(self): pass\n",
+    "def g():\n  class C:\n    x = [g()]\n  def g(): pass\n",
+    'import enum\nimport foo\nclass M(enum.Enum):\n  A = foo.x or ""\n',
+    "from typing import Callable, Concatenate\ndef f(x: Callable[[P]]) -> Callable[Concatenate[int]]:return x\n(f(g))\n",
+    "from typing import Callable, Concatenate\ndef f(x) -> Callable[Concatenate[int]]: return x\nf(len)\n",
+    "x: int\ntype B[x] = tuple[x]\n",
+    # fixture typeshed: modules pytype's own overlays look up (an artefact of the sandbox when absent)
+    "from typing import Pattern, Match\nimport re\np: Pattern[str] = re.compile('a')\n",
+    "from typing_extensions import Literal\ndef f(x: Literal[1]) -> str: ...\n",
+    "from collections import abc\ndef f(x: abc.Sequence[int]) -> abc.Mapping[str, int]: ...\n",
+    "import abc\nclass A(abc.ABCMeta): pass\n",
+    "import types\n@types.coroutine\ndef f():\n  yield 1\nasync def g():\n  await f()\n",
+    "import abc\nclass C(abc.ABC):\n  @abc.abstractclassmethod\n  def f(cls) -> int: ...\n  @abc.abstractstaticmethod\n  def g(): ...\n",
+    "from typing_extensions import dataclass_transform\n@dataclass_transform()\ndef dc(cls): return cls\n@dc\nclass A:\n  x: int\na = A(x=10)\n",
+    "import dataclasses\n@dataclasses.dataclass\nclass P:\n  x: int\n  y: list = dataclasses.field(default_factory=list)\np = P(1)\n",
 ]
 
 
@@ -257,6 +349,8 @@ def main():
   random.Random(run.seed).shuffle(plans)
   run.put("mutation_plans", len(plans))
   print("  [model] states=%d+%d plans=%d t=%.0fs" % (r.distinct, r2.distinct, len(plans), time.time() - run.t0), flush=True)
+
+  run.put("spec_selftest_cases", spec_selftest())
 
   # ---- 2. exploration
   items = build_inputs(run, thorough, plans)
